@@ -65,7 +65,7 @@ Print Assumptions C05_quiescent_cycle.
 Definition g_d : graph := graph_of [0;0;0;0] [[];[0];[0];[1;2]] [true;true;true;true] [true] [3;1] true 4.
 Definition ev_d : list ev :=
   [EvStart 0; EvEnd 0 (RBuilt Built); EvStart 1; EvStart 2; EvEnd 2 RFailed; EvEnd 1 (RBuilt Built); EvEnd 3 RDepFailed].
-Definition ls_d : list label := match witness g_d [] ev_d with Some ls => ls | None => [] end.
+Definition ls_d : list label := match witness g_d [] ev_d [] 0 with Some ls => ls | None => [] end.
 Definition s_d : state := match run g_d (init g_d) ls_d with Some s => s | None => init g_d end.
 Example C05_nonvacuous :
   run g_d (init g_d) ls_d <> None /\ length ls_d = 63 /\ mu_bound g_d = 196 /\
@@ -82,7 +82,7 @@ Qed.
    both needed labels - the requested one and its dependency - are built.  The hypotheses of C05_full hold (wf). *)
 Definition g_ok : graph := graph_of [0;0] [[1];[]] [true;true] [true] [0] false 2.
 Definition ev_ok : list ev := [EvStart 1; EvEnd 1 (RBuilt Built); EvStart 0; EvEnd 0 (RBuilt Built)].
-Definition ls_ok : list label := match witness g_ok [] ev_ok with Some ls => ls | None => [] end.
+Definition ls_ok : list label := match witness g_ok [] ev_ok [] 0 with Some ls => ls | None => [] end.
 Definition s_ok : state := match run g_ok (init g_ok) ls_ok with Some s => s | None => init g_ok end.
 Example C05_nonvacuous_ok :
   wf g_ok /\ run g_ok (init g_ok) ls_ok <> None /\ exited s_ok = true /\ failed s_ok = false /\
@@ -98,7 +98,7 @@ Qed.
    queueTargetAsync goroutines wait for each other: the run has not ended, the cycle check is enabled for the cycle
    0 -> 1 -> 0, and the run that takes it ends with a non-zero exit status; 0 is needed and lies on a cycle. *)
 Definition g_c : graph := graph_of [0;0] [[1];[0]] [true;true] [true] [0] false 2.
-Definition ls_c : list label := match witness g_c [] [EvErr 0 [0;1]] with Some ls => ls | None => [] end.
+Definition ls_c : list label := match witness g_c [] [EvErr 0 [0;1]] [] 0 with Some ls => ls | None => [] end.
 Definition s_b : state := match run g_c (init g_c) (firstn 14 ls_c) with Some s => s | None => init g_c end.
 Definition s_c : state := match run g_c (init g_c) ls_c with Some s => s | None => init g_c end.
 Example C05_nonvacuous_cycle :
